@@ -149,6 +149,9 @@ Proof.
   now rewrite In_sort_uniq.
 Qed.
 
+Lemma Forall_sort_uniq (P : str -> Prop) l : Forall P l -> Forall P (sort_uniq l).
+Proof. rewrite !Forall_forall. intros H v Hv. apply H. now apply In_sort_uniq. Qed.
+
 Lemma insert_uniq_nonempty a l : insert_uniq a l <> [].
 Proof. destruct l as [|b l]; simpl; [congruence|]. destruct (str_cmp a b); congruence. Qed.
 
@@ -456,3 +459,7 @@ Proof.
       now rewrite <- !app_assoc. }
     rewrite <- E. apply HZ. rewrite E. reflexivity.
 Qed.
+
+Lemma vars_sorted_set l :
+  StronglySorted (fun a b => str_cmp a b = Lt) (sort_uniq l) /\ (forall v, In v (sort_uniq l) <-> In v l).
+Proof. split; [apply sort_uniq_sorted | intro v; apply In_sort_uniq]. Qed.
